@@ -39,6 +39,10 @@ OpsOf(cls, s) ==
                                  priv |-> TRUE, nsig |-> NONE, stt |-> NONE, skip |-> FALSE, nid |-> NONE, pref |-> NONE, cn |-> FALSE]}
     [] cls = "Dial" -> {[op |-> "Dial", k |-> k, ex |-> RE({"none", "one", "many", "dups", "prefixlike"}),
                          stt |-> RE({"none", "empty", "nested", "large"})] : k \in Enrolled(s)}
+    [] cls = "NewNode" -> {[op |-> "NewNode", k |-> k] : k \in {x \in CertKeys : s.cert[x] = "none"}}
+    [] cls = "AuthorizePending" -> {[op |-> "AuthorizePending", k |-> k] : k \in {x \in CertKeys : s.cert[x] = "pending" /\ ~s.rec[x]}}
+    [] cls = "DialPending" -> {[op |-> "Dial", k |-> k, ex |-> RE({"none", "one"}), stt |-> RE({"none", "nested"})] : k \in {x \in CertKeys : s.cert[x] = "pending"}}
+    [] cls = "Rogue" -> {[op |-> "Rogue", k |-> k, kind |-> RE(RogueKinds), ex |-> RE({"none", "one", "many"})] : k \in {x \in CertKeys : s.cert[x] \in {"fresh", "stale"}}}
     [] cls = "Malformed" -> {[op |-> "Malformed", cls |-> RE(MalClasses), pfx |-> RE(MalPrefixes)]}
 
 Good(cls, s) == {o \in OpsOf(cls, s) : Apply(s, o).res # "skip"}
